@@ -378,9 +378,8 @@ Fixpoint files_ok_from (k : nat) (cells : list cell) (fs : list (nat * list pval
    nothing refused that the sequential path accepts; files one-to-one *)
 Definition case_violates (c : par_case) : bool :=
   match pc_seq c, pc_dask c with
-  | None, None => false
+  | None, _ => false       (* the sequential path refuses the space: nothing to compare with (C05's subject) *)
   | Some _, None => true
-  | None, Some _ => true
   | Some sc, Some (_, dc) =>
       negb (same_cells sc dc)
       || match pc_files c with None => false | Some fs => negb (files_ok_from 0 dc fs) end
